@@ -201,11 +201,66 @@ class GhostTextFile:
         self.closed = True
 
 
+class GhostTextRW:
+    """A text file with known previous content (list of lines, which may carry symbolic-integer placeholders) opened for
+    reading/updating: readline / tell / seek in units of lines, truncate at the current position."""
+
+    def __init__(self, disk, name, mode):
+        self.disk, self.name, self.mode = disk, name, mode
+        self.pos = 0
+        self.closed = False
+
+    def _lines(self):
+        return self.disk.text_content[self.name]
+
+    def readline(self):
+        ls = self._lines()
+        if self.pos >= len(ls):
+            return ""
+        self.pos += 1
+        return ls[self.pos - 1]
+
+    def readlines(self):
+        ls = self._lines()
+        out = ls[self.pos:]
+        self.pos = len(ls)
+        return list(out)
+
+    def tell(self):
+        return self.pos
+
+    def seek(self, pos, whence=0):
+        if whence != 0:
+            raise Unmodelled("ghost text seek whence=%r" % whence)
+        self.pos = pos
+        return pos
+
+    def truncate(self, size=None):
+        keep = self.pos if size is None else size
+        self.disk.text_content[self.name] = self._lines()[:keep]
+        self.disk.event("texttruncate", file=self.name, keep=keep)
+        return keep
+
+    def write(self, s):
+        raise Unmodelled("ghost text r+ write")
+
+    def close(self):
+        self.closed = True
+
+    def __enter__(self):
+        return self
+
+    def __exit__(self, *exc):
+        self.close()
+        return False
+
+
 class GhostDisk:
     def __init__(self):
         self.events = []
         self.h5 = {}
         self.text = {}
+        self.text_content = {}  # path -> list of lines already on disk (for files that are read back)
         self.ckpt_visible = {}  # path -> object
         self.ckpt_tmp = {}
         self.exists = set()
@@ -243,7 +298,14 @@ class GhostDisk:
 
     def open_fn(disk):
         def ghost_open(path, mode="r", *a, **k):
+            if mode in ("r", "r+"):
+                if path not in disk.text_content:
+                    raise FileNotFoundError(path)
+                disk.event("textopen", file=path, mode=mode)
+                return GhostTextRW(disk, path, mode)
             if "a" in mode or "w" in mode:
+                if "w" in mode:
+                    disk.text_content[path] = []
                 f = GhostTextFile(disk, path, mode)
                 disk.text.setdefault(path, [])
                 disk.text[path].append(f)
@@ -253,6 +315,23 @@ class GhostDisk:
             raise Unmodelled("ghost open mode " + mode)
 
         return ghost_open
+
+    def os_module(disk):
+        """`os` look-alike for the module under contract: existence of ghost files comes from the ghost disk."""
+        import os as _os
+        import types
+
+        class _Path:
+            def __getattr__(self, name):
+                return getattr(_os.path, name)
+
+            @staticmethod
+            def exists(path):
+                return path in disk.exists or path in disk.text_content or path in disk.h5 or _os.path.exists(path)
+
+        m = types.SimpleNamespace(**{k: getattr(_os, k) for k in dir(_os) if not k.startswith("__")})
+        m.path = _Path()
+        return m
 
     def text_frames(self, path):
         """XYZ frames written to `path`: list of (event no, label text of the 'step:' field)."""
